@@ -519,6 +519,69 @@ Section Solve.
         destruct (coind (get G g)); reflexivity.
   Qed.
 
+  (** ** closing a strongly connected component *)
+  Definition NewSI (s : state) (dfn : nat) : Prop :=
+    forall th d nd, nodeat s d nd -> dfn <= d -> trusted th (tv th (gn_sol nd)) s ->
+      (coind (get G (gn_goal nd)) <> tv th (gn_sol nd) -> Abs G th (tv th (gn_sol nd)) (gn_goal nd)) /\
+      (coind (get G (gn_goal nd)) = tv th (gn_sol nd) -> gn_depth nd = None ->
+         Rel th (tv th (gn_sol nd)) s (gn_links nd) (gn_goal nd)).
+
+  Lemma closure s dfn :
+    (forall d nd, nodeat s d nd -> dfn <= d -> gn_depth nd = None /\ mn_le (Some dfn) (gn_links nd)) ->
+    NewSI s dfn ->
+    forall th d nd, nodeat s d nd -> dfn <= d -> trusted th (tv th (gn_sol nd)) s ->
+      Abs G th (tv th (gn_sol nd)) (gn_goal nd).
+  Proof.
+    intros Hseg HN th d nd Hn Hd Ht.
+    destruct (HN th d nd Hn Hd Ht) as [A B].
+    destruct (Bool.bool_dec (coind (get G (gn_goal nd))) (tv th (gn_sol nd))) as [Eq|Ne]; [|auto].
+    set (b := tv th (gn_sol nd)) in *.
+    set (X := fun x => exists d' nd' (Xp : nat -> Prop),
+                nodeat s d' nd' /\ dfn <= d' /\ tv th (gn_sol nd') = b /\ Xp (gn_goal nd') /\
+                (forall y, Xp y -> coind (get G y) = b /\
+                    NJ1 G th b (fun m => Abs G th b m \/ Xp m \/ GL th b s (gn_links nd') m) y) /\ Xp x).
+    assert (HX : forall x, X x -> coind (get G x) = b /\ NJ1 G th b (fun m => Abs G th b m \/ X m) x).
+    { intros x [d' [nd' [Xp [Hn' [Hd' [Htv [Hg' [HXp Hx]]]]]]]].
+      destruct (HXp x Hx) as [Hc HNJ]. split; auto.
+      eapply NJ1_mono; [|exact HNJ]. intros z [Hz|[Hz|Hz]]; auto.
+      - right. exists d', nd', Xp. repeat split; auto.
+      - right. destruct Hz as [dz [ndz [Hnz [Hgz [Htz [Hcz [Hlz _]]]]]]].
+        destruct (Hseg d' nd' Hn' Hd') as [_ Hl'].
+        assert (Hdz : dfn <= dz).
+        { destruct (gn_links nd') as [l'|]; simpl in *; [lia|tauto]. }
+        destruct (Hseg dz ndz Hnz Hdz) as [Hpz _].
+        assert (Htz' : trusted th (tv th (gn_sol ndz)) s) by (rewrite Htz; exact Ht).
+        destruct (HN th dz ndz Hnz Hdz Htz') as [_ Bz].
+        rewrite Htz in Bz. rewrite Hgz in Bz. destruct (Bz Hcz Hpz) as [Xz [Hgz' HXz]].
+        exists dz, ndz, Xz. rewrite Hgz. repeat split; auto. }
+    destruct (Hseg d nd Hn Hd) as [Hp _].
+    destruct (B Eq Hp) as [Xp [Hg HXp]].
+    apply (closed_abs G th b X HX). exists d, nd, Xp. repeat split; auto.
+  Qed.
+
+  Lemma nth_error_ext {A} (l l' : list A) : (forall i, nth_error l i = nth_error l' i) -> l = l'.
+  Proof.
+    revert l'. induction l as [|a l IH]; intros [|b l'] H; auto.
+    - specialize (H 0). discriminate.
+    - specialize (H 0). discriminate.
+    - pose proof (H 0) as H0. simpl in H0. inversion H0; subst. f_equal. apply IH.
+      intros i. apply (H (S i)).
+  Qed.
+
+  Lemma cache_fold_get (moved : list gnode) : forall c0 x v,
+    cache_get (fold_left (fun c n => (gn_goal n, gn_sol n) :: c) moved c0) x = Some v ->
+    (exists n, In n moved /\ gn_goal n = x /\ gn_sol n = v) \/ cache_get c0 x = Some v.
+  Proof.
+    induction moved as [|n r IH]; intros c0 x v H; simpl in H; auto.
+    destruct (IH _ _ _ H) as [[n' [Hin [Hg Hs]]]|H'].
+    - left. exists n'. split; [right; auto|auto].
+    - simpl in H'. destruct (Nat.eqb (gn_goal n) x) eqn:E; auto.
+      left. exists n. split; [left; auto|]. split; [apply Nat.eqb_eq; auto|congruence].
+  Qed.
+
+  Lemma In_skipn_nodeat s dfn n : In n (skipn dfn (sgraph s)) -> exists d, dfn <= d /\ nodeat s d n.
+  Proof. intros H. apply In_skipn_nth in H. exact H. Qed.
+
   Lemma snsg_S f g depth dfn s :
     solve_new_subgoal G cf (S f) g depth dfn s =
     bind (solve_iteration G cf (solve_goal G cf f) g s) (loop_step f g depth dfn).
